@@ -31,5 +31,9 @@ for e in ['sphere', 'cyl', 'cone', 'plane', 'general_quadric']:
 OBLS += [
     Obl('C12.6/translate', X, 'obl_c12_translate', 'B', 'SurfaceTranslator, every overload except Involute: f_S\'(x\') == f_S(x\' - t) for all x\' (found defect F2: SimpleQuadric)',
         opts={'separate_asserts': True}, **R),
+    Obl('C12.6/updown', X, 'obl_c12_updown', 'B', 'Transformation / Translation: transform_down(transform_up(x)) == x for orthonormal R', **R),
+    Obl('C12.6/to_gq', X, 'obl_c12_transform_to_gq', 'B', 'SurfaceTransformer(CylAligned / ConeAligned / SimpleQuadric -> GeneralQuadric): f_S\'(x\') == f_S(R^T (x\' - t))', **R),
+    Obl('C12.6/simple', X, 'obl_c12_transform_simple', 'B', 'SurfaceTransformer(Plane / Sphere / PlaneAligned): point set preserved (hard polynomial identities: thorough tier)',
+        mode='real', timeout=900, validate=False, tier='thorough', opts={'separate_asserts': True}),
     Obl('C12.6/gq', X, 'obl_c12_transform_gq', 'B', 'SurfaceTransformer(GeneralQuadric): f_S\'(x\') == f_S(R^T (x\' - t)) for orthonormal R', **R),
 ]
